@@ -20,7 +20,7 @@ From Nexus Require Import Router.DealerLib Router.DealerProofs Router.DealerReg 
 From Nexus Require Import Router.RealmWf Router.RealmStep Router.RealmC05 Router.RealmOutputs.
 From Nexus Require Import Router.RealmTraceLib Router.RealmTrace Router.RealmTraceC05 Router.RealmTraceInv
      Router.RealmTraceC03.
-From Nexus Require Import Router.RealmTraceC13 Router.RealmTraceC13Step.
+From Nexus Require Import Router.RealmTraceC13 Router.RealmTraceC13Step Router.RealmTraceC13Nd.
 From Coq Require Import Lia ZifyN ZifyNat ZifyBool.
 
 (** ** The clock of a trace *)
@@ -80,10 +80,19 @@ Definition opened (tr : list event) (now : N) (timers : list (N * (N * callid)))
        now < dl /\
        armed (fst (inv_call inv)) (snd (inv_call inv)) (opt_int64 (inv_opts inv) "timeout") det pre0
              (EIn (OMsg (fst (inv_call inv)) (CCall (snd (inv_call inv)) (inv_opts inv) proc a kw) orc)
-                  :: EOut (fst k, RInvocation (snd k) rid det a kw) :: rest) dl).
+                  :: EOut (fst k, RInvocation (snd k) rid det a kw) :: rest) dl) /\
+    (* a record is marked only by a kill-mode CANCEL of its caller *)
+    (inv_canceled inv = true ->
+       exists e, In e rest /\ kill_cancel_ev (fst (inv_call inv)) (snd (inv_call inv)) e) /\
+    (* the timer armed by the opening CALL stays armed, with its deadline, until a further chunk *)
+    (inv_canceled inv = false -> (0 < opt_int64 (inv_opts inv) "timeout")%Z -> dget det "timeout" = None ->
+     (forall e, In e rest -> ~ is_call_ev (inv_call inv) e) ->
+     exists t, inv_timer inv = Some t /\
+               nget timers t = Some (clock pre0 + Z.to_N (opt_int64 (inv_opts inv) "timeout"), inv_call inv)).
 
 Record bi (tr : list event) (r : realm) : Prop := {
   bi_now : r_now r = clock tr;
+  bi_nd : nd (r_dealer r);
   bi_nometa : forall k inv, cget (d_invs (r_dealer r)) k = Some inv -> fst k <> meta_id;
   bi_open : forall k inv, cget (d_invs (r_dealer r)) k = Some inv ->
                           opened tr (r_now r) (d_timers (r_dealer r)) k inv
@@ -105,12 +114,24 @@ Lemma opened_extend : forall tr now timers k inv new now' timers' inv',
          exists newA optsA procA aA kwA orcA newB,
            new = newA ++ EIn (OMsg (fst (inv_call inv)) (CCall (snd (inv_call inv)) optsA procA aA kwA) orcA) :: newB /\
            dl = clock (tr ++ newA) + Z.to_N (opt_int64 (inv_opts inv) "timeout")))) ->
+    (inv_canceled inv' = true ->
+       inv_canceled inv = true \/ exists e, In e new /\ kill_cancel_ev (fst (inv_call inv)) (snd (inv_call inv)) e) ->
+    (inv_canceled inv' = false -> (forall e, In e new -> ~ is_call_ev (inv_call inv) e) ->
+       forall t v, inv_timer inv = Some t -> nget timers t = Some v -> inv_timer inv' = Some t /\ nget timers' t = Some v) ->
     opened (tr ++ new) now' timers' k inv'.
 Proof.
-  intros tr now timers k inv new now' timers' inv' (pre0 & proc & a & kw & orc & rid & det & rest & Etr & (Q1 & Q2 & Q3) & Qt)
-         Ec Eo N1 N2 N3 N4.
+  intros tr now timers k inv new now' timers' inv'
+         (pre0 & proc & a & kw & orc & rid & det & rest & Etr & (Q1 & Q2 & Q3) & Qt & Qc & Qf)
+         Ec Eo N1 N2 N3 N4 N5 N6.
   exists pre0, proc, a, kw, orc, rid, det, (rest ++ new). rewrite Ec, Eo.
-  split; [rewrite Etr, <- app_assoc; reflexivity|]. split.
+  split; [rewrite Etr, <- app_assoc; reflexivity|]. split; [|split; [|split]]; cycle 2.
+  - intros Hc. destruct (N5 Hc) as [Hc0|(e & Hin & He)].
+    + destruct (Qc Hc0) as (e & Hin & He). exists e. split; [apply in_or_app; now left|exact He].
+    + exists e. split; [apply in_or_app; now right|exact He].
+  - intros Hc Hpos Hdet Hnc. destruct (N3 Hc) as [Hc0 _].
+    destruct (Qf Hc0 Hpos Hdet) as (t & Hti & Htm).
+    { intros e Hin. apply Hnc. apply in_or_app. now left. }
+    exists t. apply (N6 Hc); [|exact Hti|exact Htm]. intros e Hin. apply Hnc. apply in_or_app. now right.
   - split; [|split].
     + intros e Hin. apply in_app_or in Hin. destruct Hin; [now apply Q1|rewrite <- surjective_pairing; now apply N1].
     + intros e Hin. apply in_app_or in Hin. destruct Hin; [now apply Q2|now apply N2].
@@ -137,26 +158,20 @@ Lemma opened_keep : forall tr now timers k inv new now' timers',
     (inv_canceled inv = false ->
        forall e, In e new -> ~ kill_cancel_ev (fst (inv_call inv)) (snd (inv_call inv)) e /\ ~ rintr_ev (fst k) (snd k) e) ->
     (forall t dl c, inv_timer inv = Some t -> nget timers' t = Some (dl, c) -> nget timers t = Some (dl, c) /\ now' < dl) ->
+    (inv_canceled inv = false -> forall t v, inv_timer inv = Some t -> nget timers t = Some v -> nget timers' t = Some v) ->
     opened (tr ++ new) now' timers' k inv.
 Proof.
-  intros tr now timers k inv new now' timers' O N1 N2 N3 N4.
-  eapply opened_extend; eauto.
-  intros t dl c Hti Htm. destruct (N4 t dl c Hti Htm) as [A B]. split; [exact B|]. left. auto.
+  intros tr now timers k inv new now' timers' O N1 N2 N3 N4 N5.
+  apply (opened_extend tr now timers k inv new now' timers' inv O eq_refl eq_refl N1 N2).
+  - intros Hc. split; [exact Hc|exact (N3 Hc)].
+  - intros t dl c Hti Htm. destruct (N4 t dl c Hti Htm) as [A B]. split; [exact B|]. left. auto.
+  - intros Hc. now left.
+  - intros Hc _ t v Hti Htm. split; [exact Hti|]. eapply N5; eauto.
 Qed.
 
 Lemma in_step_events : forall o out e, In e (step_events o out) -> e = EIn o \/ exists m, e = EOut m /\ In m out.
 Proof.
   intros o out e [<-|Hin]; [now left|]. right. apply in_map_iff in Hin. destruct Hin as (m & <- & Hm). eauto.
-Qed.
-
-(** two records of a consistent call table do not share a timer *)
-Lemma timer_owner_unique : forall d k1 i1 k2 i2 t v, calls_core d ->
-    cget (d_invs d) k1 = Some i1 -> cget (d_invs d) k2 = Some i2 ->
-    inv_timer i1 = Some t -> inv_timer i2 = Some t -> nget (d_timers d) t = Some v -> k1 = k2.
-Proof.
-  intros d k1 i1 k2 i2 t [dl c] W H1 H2 T1 T2 Ht.
-  pose proof (cw_timer_inj _ W _ _ _ _ _ H1 T1 Ht) as C1. pose proof (cw_timer_inj _ W _ _ _ _ _ H2 T2 Ht) as C2.
-  destruct (cw_inv _ W _ _ H1) as (B1 & _). destruct (cw_inv _ W _ _ H2) as (B2 & _). congruence.
 Qed.
 
 (** the kinds of step, without case analysis on the operation *)
@@ -202,6 +217,8 @@ Section Step.
   Proof. apply (wf_calls _ _ (rw_dealer r' W')). Qed.
   Let K : step13_kind r o out r'.
   Proof. apply (step13 r o k W I Hk Ho G). Qed.
+  Let Nd' : nd d'.
+  Proof. apply (step_nd r o k W I Hk Ho G (bi_nd _ _ B)). Qed.
 
   (** no final reply goes to the caller of a record that is there after the step *)
   Lemma no_final_new : forall k1 inv', cget (d_invs d') k1 = Some inv' ->
@@ -301,13 +318,16 @@ Section Step.
     - apply (no_answer_new _ _ _ Hi Hi').
     - intros Hc. apply (no_cancel_new _ _ _ Hi Hi' eq_refl Hc).
     - exact Ht.
+    - intros Hc t v Hti Htm. pose proof (Nd' _ _ _ Hi' Hc Hti) as Hp.
+      destruct (nget (d_timers d') t) as [[dl c]|] eqn:Ev; [|congruence].
+      destruct (Ht t dl c Hti Ev) as [X _]. transitivity (nget (d_timers d) t); [symmetry; exact X|exact Htm].
   Qed.
 
   (** timers that survive a step that does not touch the clock are still in the future *)
   Lemma old_timer_future : forall k1 inv t dl c, cget (d_invs d) k1 = Some inv -> inv_timer inv = Some t ->
       nget (d_timers d) t = Some (dl, c) -> r_now r < dl.
   Proof.
-    intros k1 inv t dl c Hi Hti Htm. destruct (bi_open _ _ B _ _ Hi) as (? & ? & ? & ? & ? & ? & ? & ? & _ & _ & Qt).
+    intros k1 inv t dl c Hi Hti Htm. destruct (bi_open _ _ B _ _ Hi) as (? & ? & ? & ? & ? & ? & ? & ? & _ & _ & Qt & _).
     destruct (Qt t dl c Hti Htm) as [X _]. exact X.
   Qed.
 
@@ -326,7 +346,7 @@ Section Step.
     assert (Bnow : r_now r' = clock (tr ++ new)).
     { rewrite clock_app, <- (bi_now _ _ B), Hnow. unfold new. rewrite clock_step_events. reflexivity. }
     assert (EvoCase : evo d d' -> r_now r' = r_now r -> bi (tr ++ new) r').
-    { intros E En. constructor; [exact Bnow| |apply (evo_step E En)].
+    { intros E En. constructor; [exact Bnow|exact Nd'| |apply (evo_step E En)].
       intros k1 inv Hi'. apply (bi_nometa _ _ B k1 inv). apply (ev_invs _ _ E). exact Hi'. }
     assert (CalmCase : calm r out r' -> bi (tr ++ new) r').
     { intros (E & _ & En). now apply EvoCase. }
@@ -341,19 +361,24 @@ Section Step.
         destruct Kind as [(Hfresh & Hnb & inv1 & Ei & Ec1 & Hcan1 & Eo1 & Ht1)|(inv0 & inv1 & Hi0 & Ec0 & Ei & Ec1 & Hcan1 & Eo1 & Ht1)].
         * (* first chunk *)
           assert (Hi1 : cget (d_invs d') (y, i) = Some inv1) by (rewrite Ei; apply cget_cset_same).
-          constructor; [exact Bnow|fold d d'|fold d d'].
+          constructor; [exact Bnow|exact Nd'|fold d d'|fold d d'].
           -- intros k1 inv. rewrite Ei, cget_cset. destruct (pair_eqb_spec k1 (y, i)) as [->|Hn]; [intros _; exact Hym|].
              apply (bi_nometa _ _ B).
           -- intros k1 inv. destruct (pair_eqb_spec k1 (y, i)) as [->|Hn].
              ++ rewrite Hi1. intros X; inversion X; subst inv. clear X.
                 exists tr, proc, args, kw, orc, rid, det, []. rewrite Ec1, Eo1. cbn [fst snd].
                 split; [rewrite Enew; reflexivity|]. split; [split; [|split]; intros; contradiction|].
-                intros t dl c Hti Htm.
+                split.
+                *** intros t dl c Hti Htm.
                 destruct Ht1 as [(Hnone & _)|(t0 & Hti0 & Hfr & Et & Hpos & Hdet)]; [congruence|].
                 assert (t = t0) by congruence. subst t0. fold d d' in Et. rewrite Et, nget_nset, N.eqb_refl in Htm.
                 inversion Htm; subst dl c. rewrite En. split; [lia|]. split; [exact Hpos|].
                 exists [], opts, proc, args, kw, orc, [EOut (y, RInvocation i rid det args kw)].
                 split; [reflexivity|]. split; [rewrite app_nil_r, <- (bi_now _ _ B); reflexivity|]. intros _. exact Hdet.
+                *** split; [intros Hc; congruence|]. intros _ Hpos Hdet _.
+                    destruct Ht1 as [(_ & _ & [Hle|Hne])|(t0 & Hti0 & Hfr & Et & _ & _)]; [lia|contradiction|].
+                    exists t0. split; [exact Hti0|]. fold d d' in Et. rewrite Et, nget_nset, N.eqb_refl.
+                    rewrite <- (bi_now _ _ B). reflexivity.
              ++ intros Hi'. assert (Hi : cget (d_invs d) k1 = Some inv) by (rewrite Ei, cget_cset_other in Hi' by exact Hn; exact Hi').
                 apply (keep_record _ _ Hi Hi'). intros t dl c Hti Htm.
                 assert (Hold : nget (d_timers d) t = Some (dl, c)).
@@ -364,7 +389,7 @@ Section Step.
                 split; [exact Hold|]. rewrite En. eapply old_timer_future; eauto.
         * (* further chunk *)
           assert (Hi1 : cget (d_invs d') (y, i) = Some inv1) by (rewrite Ei; apply cget_cset_same).
-          constructor; [exact Bnow|fold d d'|fold d d'].
+          constructor; [exact Bnow|exact Nd'|fold d d'|fold d d'].
           -- intros k1 inv. rewrite Ei, cget_cset. destruct (pair_eqb_spec k1 (y, i)) as [->|Hn]; [intros _; exact Hym|].
              apply (bi_nometa _ _ B).
           -- intros k1 inv. destruct (pair_eqb_spec k1 (y, i)) as [->|Hn].
@@ -384,6 +409,9 @@ Section Step.
                        split; [lia|]. right. split; [exact Hpos|].
                        exists [], opts, proc, args, kw, orc, [EOut (y, RInvocation i rid det args kw)].
                        rewrite Ec0. cbn [fst snd]. split; [exact Enew|]. rewrite app_nil_r, <- (bi_now _ _ B). reflexivity.
+                ** intros Hc. left. congruence.
+                ** intros _ Hnc. exfalso. apply (Hnc (EIn (OMsg sid (CCall req opts proc args kw) orc))); [rewrite Enew; now left|].
+                   rewrite Ec0. exists req, opts, proc, args, kw, orc. auto.
              ++ intros Hi'. assert (Hi : cget (d_invs d) k1 = Some inv) by (rewrite Ei, cget_cset_other in Hi' by exact Hn; exact Hi').
                 apply (keep_record _ _ Hi Hi'). intros t dl c Hti Htm.
                 assert (Hold : nget (d_timers d) t = Some (dl, c)).
@@ -394,7 +422,7 @@ Section Step.
     - (* CANCEL *)
         destruct K1 as (En & _ & [(E & _)|(k0 & inv0 & Hi0 & Ec0 & Hcan0 & _ & Hmode & Ed & Eout)]); [now apply EvoCase|].
         fold d d' in Ed, Hi0.
-        constructor; [exact Bnow|fold d d'|fold d d'].
+        constructor; [exact Bnow|exact Nd'|fold d d'|fold d d'].
         -- intros k1 inv. rewrite Ed, cs_invs, cget_cset. destruct (pair_eqb_spec k1 k0) as [->|Hn]; [intros _|]; eapply (bi_nometa _ _ B); eauto.
         -- intros k1 inv Hi'. pose proof Hi' as Hi. rewrite Ed, cs_invs, cget_cset in Hi.
            assert (Tsub : forall t v, nget (d_timers d') t = Some v -> nget (d_timers d) t = Some v)
@@ -409,13 +437,17 @@ Section Step.
               ** apply (no_answer_new _ _ _ Hi0 Hi').
               ** cbn [inv_canceled inv_set_timer inv_set_canceled]. discriminate.
               ** cbn [inv_timer inv_set_timer]. discriminate.
+              ** intros _. right. exists (EIn (OMsg sid (CCancel req copts) orc)).
+                 split; [unfold new, step_events; rewrite Eop; now left|].
+                 rewrite Ec0. exists copts, orc. auto.
+              ** cbn [inv_canceled inv_set_timer inv_set_canceled]. discriminate.
            ++ apply (keep_record _ _ Hi Hi'). intros t dl c Hti Htm. split; [now apply Tsub|].
               rewrite En. eapply old_timer_future; eauto.
     - (* YIELD *) destruct K1 as (E & En & _). now apply EvoCase.
     - (* ERROR *) destruct K1 as (E & En & _). now apply EvoCase.
     - (* tick *)
       destruct K1 as (En & [E1 E2] & Hfut & _).
-      constructor; [exact Bnow|fold d d'|fold d d'].
+      constructor; [exact Bnow|exact Nd'|fold d d'|fold d d'].
       + intros k1 inv Hi'. apply (bi_nometa _ _ B k1 inv). apply E1. exact Hi'.
       + intros k1 inv Hi'. pose proof (E1 _ _ Hi') as Hi. apply (keep_record _ _ Hi Hi').
         intros t dl c Hti Htm. split; [now apply E2|]. rewrite En. eapply Hfut; eauto.
@@ -427,6 +459,7 @@ Lemma bi_init : forall cfg, k0 cfg <= max_idN -> bi [] (init_realm cfg).
 Proof.
   intros cfg Hk. constructor.
   - unfold init_realm. destruct (fold_left _ _ _). reflexivity.
+  - now apply nd_init.
   - intros k inv H. rewrite (init_no_invs cfg k Hk) in H. discriminate.
   - intros k inv H. rewrite (init_no_invs cfg k Hk) in H. discriminate.
 Qed.
